@@ -32,12 +32,19 @@ Qed.
    fast path: every call of the integer encoder is replaced by the model's encoder (its bridge),
    what remains is the NaN test and the value handed on; slow path (the calls were inlined or
    restructured): unfold everything and sweep the stores *)
+(* `size_t n = _cbor_encode_..(..); return n;` instead of a tail call *)
+Lemma let_pair_eta {A B} (p : A * B) : (let '(a, b) := p in (a, b)) = p.
+Proof. destruct p; reflexivity. Qed.
+Lemma let_pair_eta_some {A B} (p : A * B) : (let '(a, b) := p in Some (a, b)) = Some p.
+Proof. destruct p; reflexivity. Qed.
+Ltac untail := cbn [app]; rewrite ?let_pair_eta, ?let_pair_eta_some.
+
 Ltac enc_fast :=
-  cbv zeta; rewrite ?enc16Z, ?enc32Z, ?enc64Z by (norm; lia);
+  cbv zeta; untail; rewrite ?enc16Z, ?enc32Z, ?enc64Z by (norm; lia);
   unfold isnan32, isnan64, f32_is_nan, f64_is_nan; norm; splits;
   try (exfalso; lia); repeat f_equal; lia.
 Ltac enc_sweep :=
-  cbv zeta; unfold zres, efail, indexed, isnan32, isnan64, f32_is_nan, f64_is_nan; norm;
+  cbv zeta; untail; unfold zres, efail, indexed, isnan32, isnan64, f32_is_nan, f64_is_nan; norm;
   splits; try (exfalso; lia); cbn [idx map fst snd app]; repeat f_equal; pows; try lia.
 
 Lemma bridge_encode_single v size : (v < 2^32)%N ->
@@ -169,7 +176,6 @@ Ltac half_unfold :=
   unfold nz, b2z, wrapz, swrapz, wrap; pows;
   repeat land_step; pows; shifts_lit; pows; quots.
 
-Set Default Timeout 100.
 
 Ltac push_of_N :=
   repeat first
@@ -178,7 +184,7 @@ Ltac push_of_N :=
   | rewrite N2Z.inj_pow | rewrite N2Z.inj_sub by lia | rewrite Z2N.id by lia ]; cbn [Z.of_N].
 
 Ltac half_class val s e m e0 :=
-  half_unfold; decide_ifs; splits; cbn [option_map]; f_equal;
+  half_unfold; decide_ifs; splits; untail; cbn [option_map]; f_equal;
   lazymatch goal with |- g_cbor_encode_uint16 ?R ?sz ?o = zres (enc_uint16 ?R' ?size ?o') =>
     replace R with (Z.of_N R'); [ change o with (Z.of_N o'); apply bridge_encode_uint16; [ lia | pows; lia ] | ] end;
   push_of_N; fields val s e m e0; amounts; shifts; pows; quots; fields val s e m e0; modelim; repeat lor_step; pows; lia.
